@@ -11,6 +11,7 @@ import (
 	"google.golang.org/grpc/codes"
 	pb "google.golang.org/protobuf/proto"
 
+	"github.com/oxia-db/oxia/common/constant"
 	"github.com/oxia-db/oxia/common/simsync"
 	"github.com/oxia-db/oxia/coordinator/model"
 	"github.com/oxia-db/oxia/proto"
@@ -41,6 +42,7 @@ type monitors struct {
 	leadersSeen  map[int64]map[int64]string   // shard -> term -> node observed LEADER
 	nodeTerm     map[string]map[int64]int64   // node -> shard -> last observed term
 	deleted      map[string]map[int64]bool    // node -> shard -> DeleteShard seen since the last observation
+	snapPending  map[string]map[int64]string  // node -> shard -> SendSnapshot stream delivered and not (yet) answered with a SnapshotResponse
 	blReq        map[string]*proto.BecomeLeaderRequest
 	blResp       map[string]map[string]*proto.EntryId // BecomeLeader call id -> NewTerm responders known at send time
 
@@ -58,7 +60,8 @@ type monitors struct {
 
 	// C02: when each term's fencing first reached any node, and when each node was told to lead
 	appliedSeen  map[string]appliedMark // node/shard -> last sampled applied commit offset
-	ackedOK      map[string]int64 // follower/shard/offset -> term of the entry it acknowledged to a leader holding the same entry
+	ackedOK      map[string]bool // follower/shard/offset/term: it acknowledged that entry to a leader holding the same entry
+	headBelow    map[int64]map[int64][]string // shard -> term -> NewTerm answers whose head lies below the commit offset of the state the node holds
 	electionNote map[int64]map[int64]string // shard -> term -> how many of ensemble+removed had answered NewTerm when BecomeLeader was sent
 	fenceStamp map[int64]map[int64]int64 // shard -> term -> history stamp of the first NewTerm delivery
 	leadAt     map[string]map[int64][]leadEv
@@ -76,10 +79,10 @@ type leadEv struct {
 func newMonitors(c *chaos) *monitors {
 	return &monitors{c: c, storedTerm: map[int64]int64{}, storedMeta: map[int64]model.ShardMetadata{}, sentTermMax: map[int64]int64{},
 		ntReq: map[string]*proto.NewTermRequest{}, ntPreTerm: map[string]int64{}, ntResp: map[int64]map[int64]map[string]*proto.EntryId{},
-		leadersSeen: map[int64]map[int64]string{}, nodeTerm: map[string]map[int64]int64{}, deleted: map[string]map[int64]bool{}, blReq: map[string]*proto.BecomeLeaderRequest{}, blResp: map[string]map[string]*proto.EntryId{},
+		leadersSeen: map[int64]map[int64]string{}, nodeTerm: map[string]map[int64]int64{}, deleted: map[string]map[int64]bool{}, snapPending: map[string]map[int64]string{}, blReq: map[string]*proto.BecomeLeaderRequest{}, blResp: map[string]map[string]*proto.EntryId{},
 		fences: map[string]map[int64]*fenceInfo{}, streamTerm: map[string]int64{}, streamShard: map[string]int64{},
 		tagTerm: map[string]int64{}, checkedLeaders: map[string]bool{},
-		appliedSeen: map[string]appliedMark{}, ackedOK: map[string]int64{}, electionNote: map[int64]map[int64]string{}, fenceStamp: map[int64]map[int64]int64{}, leadAt: map[string]map[int64][]leadEv{}}
+		appliedSeen: map[string]appliedMark{}, ackedOK: map[string]bool{}, electionNote: map[int64]map[int64]string{}, headBelow: map[int64]map[int64][]string{}, fenceStamp: map[int64]map[int64]int64{}, leadAt: map[string]map[int64][]leadEv{}}
 }
 
 func (m *monitors) want(p string) bool {
@@ -211,6 +214,7 @@ func (m *monitors) tap(t *TapMsg) {
 			// an explicitly deleted replica starts from scratch if it is ever re-created
 			delete(m.nodeTerm[t.Dst], req.Shard)
 			delete(m.fences[t.Dst], req.Shard)
+			delete(m.snapPending[t.Dst], req.Shard)
 			if m.deleted[t.Dst] == nil {
 				m.deleted[t.Dst] = map[int64]bool{}
 			}
@@ -234,7 +238,15 @@ func (m *monitors) tap(t *TapMsg) {
 		m.streamShard[t.StreamID] = shard
 		if strings.HasSuffix(meth, "/SendSnapshot") {
 			m.clearFence(t.Dst, shard, term)
+			if !t.Sent && !t.Dropped {
+				if m.snapPending[t.Dst] == nil {
+					m.snapPending[t.Dst] = map[int64]string{}
+				}
+				m.snapPending[t.Dst][shard] = t.StreamID
+			}
 		}
+	case strings.HasSuffix(meth, "/SendSnapshot") && !t.ToServer && (t.Kind == "data" || t.Kind == "status"):
+		m.snapAnswered(t)
 	case t.Kind == "data" && t.ToServer && strings.HasSuffix(meth, "/Replicate"):
 		ap := &proto.Append{}
 		if pb.Unmarshal(t.Payload, ap) != nil || ap.Entry == nil {
@@ -327,7 +339,7 @@ func (m *monitors) checkTruncate(t *TapMsg, req *proto.TruncateRequest) {
 	// held it identically (i.e. really replicated), as opposed to existing on this node only?
 	legit := false
 	for _, n := range m.c.cl.NodeNames {
-		if term, ok := m.ackedOK[fmt.Sprintf("%s/%d/%d", n, req.Shard, at)]; ok && term == tf {
+		if m.ackedOK[fmt.Sprintf("%s/%d/%d/t%d", n, req.Shard, at, tf)] {
 			legit = true
 		}
 	}
@@ -337,15 +349,19 @@ func (m *monitors) checkTruncate(t *TapMsg, req *proto.TruncateRequest) {
 	if os.Getenv("OXSIM_DEBUG_ACKS") != "" {
 		var ks []string
 		for k, v := range m.ackedOK {
-			if strings.HasPrefix(k, t.Dst+"/") || strings.HasSuffix(k, fmt.Sprintf("/%d", at)) || len(ks) < 6 {
-				ks = append(ks, fmt.Sprintf("%s=t%d", k, v))
+			if strings.HasPrefix(k, t.Dst+"/") || strings.Contains(k, fmt.Sprintf("/%d/t", at)) || len(ks) < 6 {
+				ks = append(ks, fmt.Sprintf("%s=%v", k, v))
 			}
 		}
 		sort.Strings(ks)
 		why += fmt.Sprintf(" [acks recorded: %v of %d total, ackChecks=%d]", ks, len(m.ackedOK), m.ackChecks)
 	}
-	m.fail("C03", "committed-entries-truncated", "leader %s (term %d) tells follower %s to truncate shard %d to offset %d although the follower has applied entries up to offset %d as committed: %s; follower log %s",
-		t.Src, req.Term, t.Dst, req.Shard, cut, applied, why, termsOf(fv.Wal))
+	note := ""
+	if x := m.electionNote[req.Shard][req.Term]; x != "" {
+		note = " (" + x + ")"
+	}
+	m.fail("C03", "committed-entries-truncated", "leader %s (term %d) tells follower %s to truncate shard %d to offset %d although the follower has applied entries up to offset %d as committed: %s; follower log %s%s",
+		t.Src, req.Term, t.Dst, req.Shard, cut, applied, why, termsOf(fv.Wal), note)
 }
 
 func (m *monitors) clearFence(node string, shard, term int64) {
@@ -354,11 +370,24 @@ func (m *monitors) clearFence(node string, shard, term int64) {
 	}
 }
 
+// snapAnswered: the install finished (the new DB carries the term before the response is sent), or the
+// follower refused the stream for its term before touching its state.  mu held.
+func (m *monitors) snapAnswered(t *TapMsg) {
+	if t.Kind == "data" || (t.Status != nil && t.Status.Code() == constant.CodeInvalidTerm) {
+		shard := m.streamShard[t.StreamID]
+		if m.snapPending[t.Src][shard] == t.StreamID {
+			delete(m.snapPending[t.Src], shard)
+		}
+	}
+}
+
 // tapSent runs at the first quiescent point after a message was sent.
 func (m *monitors) tapSent(t *TapMsg) {
 	m.mu.Lock()
 	defer m.mu.Unlock()
 	switch {
+	case strings.HasSuffix(t.Method, "/SendSnapshot") && !t.ToServer && (t.Kind == "data" || t.Kind == "status"):
+		m.snapAnswered(t)
 	case t.Kind == "req" && strings.HasSuffix(t.Method, "/BecomeLeader") && t.Src == "coord":
 		// what the coordinator had received when it decided (send time, not delivery time)
 		req := &proto.BecomeLeaderRequest{}
@@ -386,6 +415,23 @@ func (m *monitors) tapSent(t *TapMsg) {
 		v, ok := sn.Server.SimShardView(req.Shard)
 		if !ok || v.Wal == nil {
 			return
+		}
+		{
+			// a node whose log was emptied by a snapshot install answers with the head of that empty log
+			held := v.CommitOffset
+			if v.DB != nil {
+				if c, err := v.DB.ReadCommitOffset(); err == nil && c > held {
+					held = c
+				}
+			}
+			if res.HeadEntryId.Offset < held {
+				if m.headBelow[req.Shard] == nil {
+					m.headBelow[req.Shard] = map[int64][]string{}
+				}
+				m.headBelow[req.Shard][req.Term] = append(m.headBelow[req.Shard][req.Term],
+					fmt.Sprintf("%s answered NewTerm with head offset %d although the state it holds is committed up to offset %d, its log having been emptied by a snapshot install, so what it holds did not count when the leader was chosen", node, res.HeadEntryId.Offset, held))
+				m.c.r.Count("newterm_head_below_commit", 1)
+			}
 		}
 		if prev, ok := m.ntPreTerm[t.CallID]; ok && prev >= req.Term {
 			// a repeated NewTerm for the term the node is already in (coordinator retry): the
@@ -443,7 +489,7 @@ func (m *monitors) checkAck(t *TapMsg, ack *proto.Ack) {
 		b, errB := readLog(lv.Wal, ack.Offset-1)
 		if errA == nil && errB == nil && len(a) > 0 && len(b) > 0 && a[0].Offset == ack.Offset && b[0].Offset == ack.Offset &&
 			a[0].Term == b[0].Term && string(a[0].Value) == string(b[0].Value) {
-			m.ackedOK[fmt.Sprintf("%s/%d/%d", follower, shard, ack.Offset)] = a[0].Term
+			m.ackedOK[fmt.Sprintf("%s/%d/%d/t%d", follower, shard, ack.Offset, a[0].Term)] = true
 		}
 	}
 	if !ok1 || !ok2 || fv.Wal == nil || lv.Wal == nil || !lv.IsLeader || lv.Term != sterm {
@@ -561,7 +607,11 @@ func (m *monitors) checkBecomeLeader(dst string, req *proto.BecomeLeaderRequest,
 			}
 			seenRemoved[n] = true
 		}
-		m.electionNote[req.Shard][req.Term] = fmt.Sprintf("when BecomeLeader(term %d) was sent, %d of the %d ensemble+removed nodes had answered NewTerm: %s%s", req.Term, answered, len(all), verdict, twice)
+		below := ""
+		for _, x := range m.headBelow[req.Shard][req.Term] {
+			below += "; " + x
+		}
+		m.electionNote[req.Shard][req.Term] = fmt.Sprintf("when BecomeLeader(term %d) was sent, %d of the %d ensemble+removed nodes had answered NewTerm: %s%s%s", req.Term, answered, len(all), verdict, twice, below)
 	}
 	raw := func(l []model.Server) string {
 		var out []string
@@ -740,6 +790,9 @@ func (m *monitors) afterEvent() {
 				if m.deleted[name][s] && v.Term == -1 {
 					// the replica was deleted on the coordinator's request and re-created empty
 					delete(m.deleted[name], s)
+				} else if sid, pend := m.snapPending[name][s]; pend && v.Term == -1 {
+					m.fail("C05", "node-term-decreased", "node %s shard %d: term went from %d to %d after a snapshot install that never completed (stream %s: the follower wipes its DB, and the term with it, before the new DB is in place)", name, s, prev, v.Term, sid)
+					delete(m.snapPending[name], s)
 				} else {
 					m.fail("C05", "node-term-decreased", "node %s shard %d: term went from %d to %d", name, s, prev, v.Term)
 				}
